@@ -26,7 +26,7 @@ ASSUMPTIONS = [
     'only the five listing places the statement names are judged for the private marker',
 ]
 FLOOR = {'quick': 300, 'thorough': 1000}
-SPACE = {'quick': 'single-feature projects x every visible object x {HIDDEN exact, HIDDEN pattern, PRIVATE exact} (sidebar depth 2)',
+SPACE = {'quick': 'single-feature projects x every visible object x {HIDDEN exact, HIDDEN pattern, HIDDEN pattern after broader PUBLIC/PRIVATE patterns, HIDDEN exact before PUBLIC patterns, PRIVATE exact} (sidebar depth 2)',
          'thorough': 'quick + PRIVATE by pattern, sidebar depth 3, and all pairs of objects hidden together on 12 projects'}
 JOB_TIMEOUT = 2300
 
@@ -75,7 +75,14 @@ def pattern_for(name: str) -> str:
 def judge_hidden(feats: Sequence[str], targets: Sequence[str], form: str, res: Dict[str, Any]) -> None:
     args: List[str] = []
     for t in targets:
-        args += ['--privacy', 'HIDDEN:' + (t if form == 'exact' else pattern_for(t))]
+        if form == 'pattern-after-public-patterns':
+            # a list of rules: broader PUBLIC / PRIVATE patterns given first, the hiding pattern last (the last matching pattern decides)
+            args += ['--privacy', 'PUBLIC:pk**', '--privacy', 'PRIVATE:**.' + t.split('.')[-1], '--privacy', 'HIDDEN:' + pattern_for(t)]
+        elif form == 'exact-before-public-pattern':
+            # an exact rule beats any pattern, wherever it stands in the list
+            args += ['--privacy', 'HIDDEN:' + t, '--privacy', 'PUBLIC:' + pattern_for(t), '--privacy', 'PUBLIC:pk**']
+        else:
+            args += ['--privacy', 'HIDDEN:' + (t if form == 'exact' else pattern_for(t))]
     case = {'kind': 'hidden', 'feats': list(feats), 'targets': list(targets), 'form': form}
     res['evals'] += 1
     with site.run(feats, args + ['--sidebar-expand-depth', '2']) as r:
@@ -182,6 +189,8 @@ def run_job(job: Any, tier: str) -> Dict[str, Any]:
         for t in names:
             judge_hidden(feats, [t], 'exact', res)
             judge_hidden(feats, [t], 'pattern', res)
+            judge_hidden(feats, [t], 'pattern-after-public-patterns', res)
+            judge_hidden(feats, [t], 'exact-before-public-pattern', res)
             judge_private(feats, t, 'exact', '2', res)
             if job[2] == 'thorough':
                 judge_private(feats, t, 'pattern', '3', res)
